@@ -144,7 +144,8 @@ namespace
                 ",\"grains models\":[" + worlds::uniform_grains("[0,1]", 2, 25) + "]"
                 ",\"velocity models\":[{\"model\":\"uniform raw\",\"velocity\":[0.06,-0.01,0.002]}]}");
     f.push_back("{\"model\":\"mantle layer\",\"name\":\"ML\",\"min depth\":1e5,\"max depth\":6e5,\"coordinates\":" + sq(-5,5,-5,5) +
-                ",\"temperature models\":[{\"model\":\"linear\",\"min depth\":1e5,\"max depth\":6e5,\"top temperature\":1500,\"bottom temperature\":1700}]"
+                // (the adiabatic model takes the world-level constants, i.e. whatever a query keeps in the world object on its way to the models is read here)
+                ",\"temperature models\":[{\"model\":\"adiabatic\",\"min depth\":1e5,\"max depth\":6e5},{\"model\":\"linear\",\"min depth\":1e5,\"max depth\":6e5,\"top temperature\":150,\"bottom temperature\":170,\"operation\":\"add\"}]"
                 ",\"composition models\":[{\"model\":\"uniform\",\"compositions\":[2]}]"
                 ",\"velocity models\":[{\"model\":\"uniform raw\",\"velocity\":[0.01,0.02,0.03]}]}");
     f.push_back("{\"model\":\"subducting plate\",\"name\":\"SL\",\"coordinates\":[" + pt({1*s,-4*s}) + "," + pt({1.2*s,0}) + "," + pt({1*s,4*s}) + "],\"dip point\":" + pt({20*s,0}) +
@@ -291,6 +292,10 @@ namespace
                  .raw("subtree_prefix", jarr(start)).integer("schedules_in_subtree", static_cast<long long>(st.executions)).integer("max_scheduling_points", static_cast<long long>(st.max_points)).done());
   }
 
+  // chunks that close on themselves (used by the tsan and the jindep suites)
+  const char *CLOSED_CHUNK_3D = "grid_type = chunk\ndim = 3\ncompositions = 3\nvtu_output_format = ASCII\nx_min = -180\nx_max = 180\ny_min = -4\ny_max = 4\nz_min = 5771e3\nz_max = 6371e3\nn_cell_x = 8\nn_cell_y = 2\nn_cell_z = 2\n";
+  const char *CLOSED_CHUNK_2D = "grid_type = chunk\ndim = 2\ncompositions = 3\nvtu_output_format = ASCII\nx_min = -180\nx_max = 180\ny_min = 0\ny_max = 0\nz_min = 5771e3\nz_max = 6371e3\nn_cell_x = 12\nn_cell_z = 3\n";
+
   // ---------- (c) tsan ----------
   void run_tsan(bool thorough, uint64_t idx, Ctx &ctx)
   {
@@ -299,7 +304,7 @@ namespace
     std::string cmd;
     if (idx == 0)
       cmd = "TSAN_OPTIONS='halt_on_error=0 report_signal_unsafe=0 exitcode=66' /verif/build/tsan/bin/C14_tsan " + G().rundir + " " + (thorough ? "16" : "8") + " 8 " + (thorough ? "1500" : "200");
-    else
+    else if (idx < 8)
       {
         // the TSan build of the real tool on the repository's own grid set-ups, 4 threads
         // (the last two once more with the filter options, whose extra passes over the nodes and cells run after / inside the parallel loop)
@@ -308,6 +313,16 @@ namespace
         const std::string filter = idx >= 6 ? "--filtered --by-tag " : "";
         const std::string dir = G().rundir + "/tsangrid" + std::to_string(idx);
         cmd = "mkdir -p " + dir + " && cd " + dir + " && TSAN_OPTIONS='halt_on_error=0 exitcode=66' /verif/build/tsan/bin/gwb-grid -j 4 " + filter + "/repo/tests/gwb-grid/" + base + ".wb /repo/tests/gwb-grid/" + base + ".grid";
+      }
+    if (idx >= 8)
+      {
+        // ... and on the closed chunks of the -j comparison (rich spherical world)
+        const std::string dir = G().rundir + "/tsangrid" + std::to_string(idx);
+        (void)!system(("rm -rf " + dir + " && mkdir -p " + dir).c_str());
+        worlds::Opt o; o.spherical = true; o.cross_section = true;
+        { std::ofstream f(dir + "/w.wb"); f << worlds::rich(o); }
+        { std::ofstream f(dir + "/g.grid"); f << (idx == 8 ? CLOSED_CHUNK_3D : CLOSED_CHUNK_2D); }
+        cmd = "cd " + dir + " && TSAN_OPTIONS='halt_on_error=0 exitcode=66' /verif/build/tsan/bin/gwb-grid -j 4 w.wb g.grid";
       }
     const int rc = system((cmd + " > " + log + " 2>&1").c_str());
     const std::string out = read_tail(log, 200000);
@@ -333,7 +348,7 @@ namespace
 
   // ---------- (d) -j independence of the real tool ----------
   struct Grid { const char *name; const char *text; bool spherical; int world = 0; };   // world 1: mass conserving slabs with splines of different sizes
-  const int NGRIDS = 12;
+  const int NGRIDS = 14;
   const Grid GRIDS[NGRIDS] =
   {
     {"c2_3x3", "grid_type = cartesian\ndim = 2\ncompositions = 3\nvtu_output_format = ASCII\nx_min = -450e3\nx_max = 350e3\nz_min = 400e3\nz_max = 1000e3\nn_cell_x = 3\nn_cell_z = 3\n", false},
@@ -348,6 +363,9 @@ namespace
     {"c3_10x10x10", "grid_type = cartesian\ndim = 3\ncompositions = 2\nvtu_output_format = ASCII\nx_min = -450e3\nx_max = 450e3\ny_min = -300e3\ny_max = 300e3\nz_min = 500e3\nz_max = 1000e3\nn_cell_x = 10\nn_cell_y = 10\nn_cell_z = 10\n", false, 0},
     {"c3_splines_12x9x8", "grid_type = cartesian\ndim = 3\ncompositions = 2\nvtu_output_format = ASCII\nx_min = -480e3\nx_max = 420e3\ny_min = -350e3\ny_max = 460e3\nz_min = 650e3\nz_max = 1000e3\nn_cell_x = 12\nn_cell_y = 9\nn_cell_z = 8\n", false, 1},
     {"chunk3_fine_over_depth_surfaces", "grid_type = chunk\ndim = 3\ncompositions = 2\nvtu_output_format = ASCII\nx_min = 3.4\nx_max = 3.88\ny_min = -2.0\ny_max = -1.52\nz_min = 6241e3\nz_max = 6371e3\nn_cell_x = 12\nn_cell_y = 12\nn_cell_z = 65\n", true, 2},
+    // chunks that close on themselves (360 degrees of longitude: the last plane of nodes coincides with the first one)
+    {"chunk3_closed", CLOSED_CHUNK_3D, true, 0},
+    {"chunk2_closed", CLOSED_CHUNK_2D, true, 0},
     {"c2_splines_40x12", "grid_type = cartesian\ndim = 2\ncompositions = 2\nvtu_output_format = ASCII\nx_min = 0\nx_max = 900e3\nz_min = 650e3\nz_max = 1000e3\nn_cell_x = 40\nn_cell_z = 12\n", false, 1},
   };
   std::string slurp(const std::string &p) { std::ifstream f(p, std::ios::binary); std::stringstream ss; ss << f.rdbuf(); return ss.str(); }
@@ -458,7 +476,7 @@ int main(int argc, char **argv)
       s.push_back(a);
     }
     {
-      Suite a; a.name = "tsan"; a.n = 8; a.run = [th](uint64_t i, Ctx &c) { run_tsan(th, i, c); };
+      Suite a; a.name = "tsan"; a.n = 10; a.run = [th](uint64_t i, Ctx &c) { run_tsan(th, i, c); };
       a.watchdog_s = 900;
       a.bound = "TSan build: 8 threads x rounds on brand-new worlds (all feature types, 2-D and 3-D, repeated points) + TSan gwb-grid -j 4 on 5 repository grids, two of them also with --filtered --by-tag";
       s.push_back(a);
